@@ -11,6 +11,7 @@ From Coq Require Import ZArith NArith List Bool.
 From SV Require Import Fmt.VtfPixelExpr Fmt.VtfPixelExprProofs Fmt.VtfLayout Fmt.VtfLayoutProofs.
 From SV Require Import Gen.PixelCodecs_gen Gen.VtfLayout_gen Fmt.VtfGenProofs.
 From SV Require Import Fmt.VtfFrameSM Fmt.VtfFrameSMProofs Gen.VtfFrameSM_gen.
+From SV Require Import Fmt.VtfFrameRaise Fmt.VtfFrameRaiseProofs.
 From SV Require Import Bin.Struct Fmt.VtfContainer Fmt.VtfContainerProofs Gen.VtfContainer_gen.
 From SV Require Import Fmt.VtfSides Fmt.VtfSidesProofs.
 From SV Require Import Fmt.VtfWholeFile Fmt.VtfWholeFileProofs Fmt.VtfSheetProofs.
@@ -126,11 +127,11 @@ Theorem c15_pixel_index_in_bounds : forall ds, bounds_ok ds = true ->
     0 <= x < w /\ 0 <= y < h /\ 0 <= pixel_off x y w /\ pixel_off x y w + 4 <= 4 * w * h.
 Proof. exact accepted_in_bounds. Qed.
 (** instantiated with the rejection tests, offset formulas and access widths read from the source *)
-Theorem c15_getitem_in_bounds : bounds_ok getitem_reject = true -> Z.leb getitem_span 4 = true ->
+Theorem c15_getitem_in_bounds : pixel_offsets_spec -> bounds_ok getitem_reject = true -> Z.leb getitem_span 4 = true ->
   forall x y w h, rejects getitem_reject x y w h = false ->
     0 <= x < w /\ 0 <= y < h /\ 0 <= getitem_off x y w h /\ getitem_off x y w h + getitem_span <= 4 * w * h.
 Proof. exact gen_getitem_in_bounds. Qed.
-Theorem c15_setitem_in_bounds : bounds_ok setitem_reject = true -> Z.leb setitem_span 4 = true ->
+Theorem c15_setitem_in_bounds : pixel_offsets_spec -> bounds_ok setitem_reject = true -> Z.leb setitem_span 4 = true ->
   forall x y w h, rejects setitem_reject x y w h = false ->
     0 <= x < w /\ 0 <= y < h /\ 0 <= setitem_off x y w h /\ setitem_off x y w h + setitem_span <= 4 * w * h.
 Proof. exact gen_setitem_in_bounds. Qed.
@@ -142,14 +143,14 @@ Proof. exact pinned_bounds_refuted. Qed.
 
 (** ** Generated mipmaps: scale_down reads the 2x2 parent block, inside the parent buffer, and the bilinear
     filter writes the floor of its mean (index arithmetic regenerated from the source). *)
-Theorem c15_scale_down_block : forall w h x y, 0 < w -> 0 < h -> 0 <= x < w -> 0 <= y < h ->
+Theorem c15_scale_down_block : scale_strides_spec -> forall w h x y, 0 < w -> 0 < h -> 0 <= x < w -> 0 <= y < h ->
     let sw := 2 * w in let sh := 2 * h in
     src_offsets gen_scalecfg sw sh w h x y
     = [texel_off sw (2 * x) (2 * y); texel_off sw (2 * x + 1) (2 * y);
        texel_off sw (2 * x) (2 * y + 1); texel_off sw (2 * x + 1) (2 * y + 1)]
     /\ Forall (fun o => 0 <= o /\ o + 4 <= 4 * sw * sh) (src_offsets gen_scalecfg sw sh w h x y).
 Proof. exact gen_scale_down_block. Qed.
-Theorem c15_bilinear_is_block_mean : terms_eqb bilinear_terms block_terms = true -> Z.eqb bilinear_div 4 = true ->
+Theorem c15_bilinear_is_block_mean : scale_strides_spec -> terms_eqb bilinear_terms block_terms = true -> Z.eqb bilinear_div 4 = true ->
   forall src w h x y ch, 0 < w -> 0 < h -> 0 <= x < w -> 0 <= y < h ->
     let sw := 2 * w in let sh := 2 * h in
     bilinear gen_scalecfg bilinear_terms bilinear_div src sw sh w h x y ch
@@ -225,6 +226,60 @@ Theorem c15_parent_not_loaded_refuted :
   chain_ok pinned_cfg = false
   /\ toy_save ideal_rescale pinned_cfg [lazy 1; lazy 2; cleared] = [Some 1; Some 2; Some 201].
 Proof. exact parent_not_loaded_refuted. Qed.
+
+(** ** Round 5: a call that is REJECTED (raises) and whose exception the caller catches.
+    translate/c15_frame.py follows every method of Frame also along the paths that leave it by an exception (explicit raise,
+    assert, import, every call that can raise; self.load() contributes the exits of load()) and emits, per abstract pre-state,
+    the outcomes reached there ([gen_raise_tables]); [method_raises_cleanly] per method is an instance obligation of every run
+    ("every store that changes what the frame shows comes after everything that can raise").
+    Then: the frame shows the same pixels as before the call ... *)
+Theorem c15_rejected_call_shows_the_same_pixels : forall ts name, method_raises_cleanly ts name = true ->
+  forall pix fbytes blank decode newd scaled modf (st : fstate pix fbytes) o,
+    In o (find_row (raise_table_of ts name) (present (f_data st)) (present (f_src st))) ->
+    view pix fbytes blank decode (apply_outcome pix fbytes o blank decode newd scaled modf st) = view pix fbytes blank decode st.
+Proof. exact rejected_call_shows_the_same_pixels_gen. Qed.
+(** ... a level that still waits to be read from the file is saved as the (re-encoded) bytes of the file, whatever was
+    rejected on it (wrong-length buffer, frame of another size, format without decoder, index out of range) ... *)
+Theorem c15_rejected_call_on_lazy_level_then_save : forall pix fbytes blank decode encode scale t_load t_rescale cfg,
+  efftable_eqb t_load ideal_load = true -> efftable_eqb t_rescale ideal_rescale = true -> chain_ok cfg = true ->
+  forall ts name, method_raises_cleanly ts name = true ->
+  forall (chain : list (fstate pix fbytes)) m st b newd scaled modf o,
+    nth_error chain m = Some st -> f_src st = Some b ->
+    In o (find_row (raise_table_of ts name) (present (f_data st)) true) ->
+    nth_error (save_chain pix fbytes blank decode encode scale t_load t_rescale cfg
+                 (upd chain m (apply_outcome pix fbytes o (blank m) decode newd scaled modf))) m
+    = Some (Some (encode (decode b))).
+Proof. exact rejected_call_on_lazy_level_then_save_gen. Qed.
+(** ... and for any level in any state, save() writes for the WHOLE chain what it would have written without the call, or
+    what it writes after an explicit load() of that level (a cleared level may have been given its blank pixels, as by
+    every reading access: it is then no longer regenerated). *)
+Theorem c15_rejected_call_then_save : forall pix fbytes blank decode encode scale t_load t_rescale cfg,
+  efftable_eqb t_load ideal_load = true -> efftable_eqb t_rescale ideal_rescale = true -> chain_ok cfg = true ->
+  forall ts name, method_raises_cleanly ts name = true ->
+  forall (chain : list (fstate pix fbytes)) m newd scaled modf o,
+    (forall st, nth_error chain m = Some st -> In o (find_row (raise_table_of ts name) (present (f_data st)) (present (f_src st)))) ->
+    let after := upd chain m (apply_outcome pix fbytes o (blank m) decode newd scaled modf) in
+    save_chain pix fbytes blank decode encode scale t_load t_rescale cfg after
+      = save_chain pix fbytes blank decode encode scale t_load t_rescale cfg chain
+    \/ save_chain pix fbytes blank decode encode scale t_load t_rescale cfg after
+      = save_chain pix fbytes blank decode encode scale t_load t_rescale cfg (upd chain m (load pix fbytes (blank m) decode)).
+Proof. exact rejected_call_then_save_gen. Qed.
+(** Defective shapes.  copy_from() that forgets the file source in front of its validation (seeded fault c15_8): the
+    exit of the size test is not clean, and on the toy chain the stored level 1 (value 2) is written as the average (101). *)
+Theorem c15_copy_from_source_dropped_first_refuted :
+  raise_table_ok raise_copy_from_source_dropped_first = false
+  /\ In (DNoneV, false, SNoneV) (find_row raise_copy_from_source_dropped_first false true)
+  /\ toy_after_raise (DNoneV, false, SNoneV) [lazy 1; lazy 2] = [Some 1; Some 101]
+  /\ toy_save ideal_rescale good_cfg [lazy 1; lazy 2] = [Some 1; Some 2].
+Proof. exact copy_from_source_dropped_first_refuted. Qed.
+(** load() that forgets the file source before it reads the stream (the tree before the repair of round 5): after a failed
+    read the level is written blank (0). *)
+Theorem c15_load_source_dropped_first_refuted :
+  raise_table_ok raise_load_source_dropped_first = false
+  /\ toy_after_raise (DBlank, false, SNoneV) [lazy 1; lazy 2] = [Some 1; Some 0].
+Proof. exact load_source_dropped_first_refuted. Qed.
+Example c15_raise_tables_inhabited : method_raises_cleanly raise_example raise_example_name = true.
+Proof. exact raise_tables_inhabited. Qed.
 
 (** ** The container: header, resource directory, data blocks, frames (vtf.py: VTF.save / VTF.read) and the
     particle-sheet records.  Every struct.pack / struct.unpack site is regenerated from the source as a [site]
@@ -460,7 +515,7 @@ Proof. exact item_accepts_exactly. Qed.
     the value back at the same coordinate and leaves every other coordinate alone; a coordinate is accepted by one path
     iff it is accepted by every other and by frame[x, y] / frame[x, y] = p; all address the bytes of pixel_off; inside the array *)
 Theorem c15_every_pixel_path_agrees :
-  forallb path_ok gen_paths = true -> bounds_exact getitem_reject = true -> bounds_exact setitem_reject = true ->
+  pixel_offsets_spec -> forallb path_ok gen_paths = true -> bounds_exact getitem_reject = true -> bounds_exact setitem_reject = true ->
   forall w h,
     (forall p q, In p gen_paths -> In q gen_paths -> forall f g (b : buf) x y c v,
         path_accepts p w h f x y c = path_accepts q w h g x y c
@@ -616,3 +671,30 @@ Theorem c15_clear_after_exact : forall c, clear_after_ok c = true -> forall afte
 Proof. exact clear_after_exact. Qed.
 Theorem c15_clear_after_ge_refuted : clear_after_ok CGe = false /\ clears CGe 0 0 = true.
 Proof. exact clear_after_ge_refuted. Qed.
+
+(** ** Round 5: THE WHOLE PROPERTY IN ONE STATEMENT over the objects regenerated from the source on this run.
+    [c15_generated_objects_ok cd q canon] (Fmt/VtfC15WholeProofs.v) is the conjunction of the boolean premises of the part
+    theorems, instantiated with the generated record formats and flag expressions, side lists, loop nests, effect tables and
+    exits by exception of the Frame methods, chain configuration, pixel paths, bounds tests and filter terms, and one generated
+    codec [cd] with its specification [q] ([pixel_offsets_spec] and [scale_strides_spec] are the two facts about generated
+    FORMULAS, universally quantified and therefore not booleans: the check discharges them by compiling their ring / lia proofs,
+    obligations build:Fmt/VtfGenPixelOffsetIs4TimesYWidthPlusX.vo and build:Fmt/VtfGenScaleDownStridesSelectThe2x2ParentBlock.vo;
+    the specification is the identity on the used channels for the formats with 8 bits per channel:
+    c15_spec_rgba ...; the documented quantisation otherwise: c15_spec_565 ...) and canonical form [canon].  The check
+    discharges it in the kernel for every writable format it has a specification for (instance obligations
+    [all_premises_of_c15_property_hold_for_the_generated_objects_and_codec_<format>]; the two 565 formats are carved out by
+    the known finding rgb565-rb-swap, the two bluescreen formats have their own theorems above).  Then, for files written by
+    the model of save() with these objects: metadata, resources, sheet and thumbnail come back exactly and every frame's
+    pixels are the specified quantisation (7.3+ and before); storing loaded pixels again changes nothing; save() writes for
+    every mipmap level the file's bytes / the data / the average of the level above, and a rejected call in between changes
+    this no more than load() does and leaves what the frame shows untouched; every pixel access path accepts exactly the
+    coordinates of the frame and stays inside the array; generated mipmaps have halved sides and are block means.
+    Semantic hypotheses that remain (visible inside the definitions): [vfile_fits] / [vfile_fits_old] (values fit their
+    fields), the image part is the frames in save()'s loop order, pixels are bytes.  Trusted outside the statement: that
+    [encode_file]/[decode_file] model VTF.save/VTF.read (tie: sites, flag trees, side lists, loop nests, event order,
+    example files, two-way correspondence) and the classification done by the translators. *)
+From SV Require Import Fmt.VtfC15WholeProofs.
+Theorem c15_property : pixel_offsets_spec -> scale_strides_spec -> forall cd q canon, c15_generated_objects_ok cd q canon = true ->
+  file_round_trip_73 cd q /\ file_round_trip_pre73 cd q /\ stored_again_unchanged cd
+  /\ lifecycle_statement /\ access_statement /\ mipmap_statement.
+Proof. exact whole_property. Qed.
